@@ -1168,6 +1168,11 @@ func (x *Exec) callModular(s *State, fi *FuncInfo, ct *Contract, recv *Term, arg
 		}
 	}
 	for _, en := range ct.Ensures {
+		if mentionsLogBuiltin(en.Text) {
+			// clauses over the ghost logs speak about the CALLEE's log during its own execution; evaluated here they
+			// would read the caller's log (and an unconditional one could make the caller vacuous): not assumed
+			continue
+		}
 		t := x.evalClauseIn(s, env, fi, en, vals, pre)
 		s.assume(t)
 		// forall-introduction over ghost variables (directive `generalize`): the clause was proved with the ghost
@@ -2083,4 +2088,13 @@ func termMentions(t, v *Term) bool {
 		return false
 	}
 	return rec(t)
+}
+
+func mentionsLogBuiltin(text string) bool {
+	for _, n := range []string{"wroteSeq(", "wroteLast(", "callCount(", "callArgF(", "callArgI(", "callArgB(", "callArgIs(", "callResF(", "callResI(", "callResB(", "callSeen("} {
+		if strings.Contains(text, n) {
+			return true
+		}
+	}
+	return false
 }
